@@ -21,6 +21,15 @@ _WIP = "check not built yet in this session (design in DESIGN.md section 6); not
 NOT_APPLICABLE = {("C%02d" % i): _WIP for i in range(1, 21)}
 
 PROPS = {
+    "C06": {
+        "engine": "c06", "monitors": ["c06"], "finding_checks": {"montn": "typed-nil-in-abstract-position"},
+        "engine_timeout": {"quick": 900, "thorough": 7200},
+        "technique": "Coq proof (every interleaving of the tasks' atomic actions yields the sequential slots, Invalids and a permutation of the errors; disjoint footprint of FieldSet tasks) + the same operations under adversarial delay schedules on generated probe servers",
+        "level_text": "Theorem over all interleavings admitted by the action model (error append, slot publish, Invalids bump) of any task set with distinct slots: same data and same multiset of errors as the sequential schedule; the tasks of an object are shown to have distinct slots and their sequential schedule is the completion function of C01. Every check replays each plan under random / reversed / straggler delay schedules with worker_limit 0, 1, 2 and requires the single predicted response; mutation root fields must start only after the previous root field and its whole sub-selection ended (start/end events). Absence of data races is runtime evidence only: the thorough tier builds the probes with the race detector; partial.",
+        "level_note": "Trusted: Coq kernel + vm_compute; harness; Go memory model / scheduler; the action model (what is atomic) is read off object.gotpl, fieldset.go and context_response.go and is not itself verified.",
+        "trusted": ["the atomicity assumed for each action (mutex around the error list, atomic Invalids counter, one writer per slot) is read from the source, and checked only dynamically (race detector, thorough tier)"],
+        "assumptions": ["resolvers are deterministic functions of the oracle; schedules are induced by sleep-based delay plans, not exhaustively enumerated on the implementation"],
+    },
     "C04": {
         "engine": "c04", "monitors": ["c04"], "finding_checks": {"montn": "typed-nil-in-abstract-position"},
         "engine_timeout": {"quick": 900, "thorough": 7200},
